@@ -208,9 +208,34 @@ func TestVerifC11Broker(t *testing.T) {
 				ampReq.URL = u
 			}
 		}
+		// what caches and browsers add to a GET: conditional and range headers must not change the answer
+		hdrCase := ""
+		switch k := rng.Intn(8); k {
+		case 0:
+			ampReq.Header.Set("Range", "bytes=0-15")
+			hdrCase = "Range"
+		case 1:
+			ampReq.Header.Set("If-None-Match", "*")
+			hdrCase = "If-None-Match"
+		case 2:
+			ampReq.Header.Set("If-Match", `"some-etag"`)
+			hdrCase = "If-Match"
+		case 3:
+			ampReq.Header.Set("If-Modified-Since", "Mon, 02 Jan 2006 15:04:05 GMT")
+			ampReq.Header.Set("If-Range", `"x"`)
+			ampReq.Header.Set("Range", "bytes=5-")
+			hdrCase = "If-Modified-Since+If-Range+Range"
+		case 4:
+			ampReq.Header.Set("Accept-Encoding", "gzip, br")
+			ampReq.Header.Set("Cache-Control", "no-cache")
+			hdrCase = "Accept-Encoding+Cache-Control"
+		}
 		ampR := c11Serve(i, ampClientOffers, ampReq, withProxy, answer)
 
 		caseLine := fmt.Sprintf("poll=%s path=%s proxy=%v", hex.EncodeToString(c.body), hex.EncodeToString([]byte(ampPath)), withProxy)
+		if hdrCase != "" {
+			caseLine += " GET headers: " + hdrCase
+		}
 		cls := c.class
 		if withProxy {
 			cls += "/proxy"
